@@ -298,6 +298,8 @@ def c03_gen(tier, rng):
     cases = []
     P = G.pool()
     pairs = [(a, b) for a in P for b in P]
+    SP = G.small_pool()
+    numeric = []
     if tier == "quick":
         SP = G.small_pool() + ["Ffff0000000000000", "F3fe0000000000000", "Fbfe0000000000000", "Fbff0000000000000", "F4000000000000000", "F4008000000000000", "I2", "I-2"]
         keep = set()
